@@ -33,6 +33,10 @@ class Check(PropertyCheck):
 
     def generate(self, rng, n, tier):
         for i in range(n):
+            if i % 16 == 5:
+                yield Scenario(["new", f"mark gcflex {rng.randint(0, 10**6)}"], {"family": "gcflex", "accepted": 3, "rejected": 3,
+                                                                               "bad_kinds": ["bad_machine", "gc-loop"]})
+                continue
             if i % 8 == 7:
                 # the multi-instance environment: illegal decisions (also machine ids that exist only in the padded action
                 # space of a smaller episode instance) between legal steps
@@ -147,6 +151,9 @@ class Check(PropertyCheck):
 
         offs = [sum(len(job) for job in jobs[:k]) for k in range(len(jobs))]
 
+        def via():
+            return "sstep" if rng.random() < 0.25 else "disp"
+
         def inject():
             nonlocal n_bad
             bad = gen.gen_invalid_request(rng, tr, M)
@@ -176,14 +183,15 @@ class Check(PropertyCheck):
                 # per-state memo), nothing right after it; the next VALID request follows at once.  Judged by: it must
                 # raise, and the final state must equal the run of the history without it.
                 lines.append("mark blind " + bad[3])
-                lines.append(f"disp {bad[0]} {bad[1]} {bad[2]}")
+                # (one request in four reaches the dispatcher through DispatchingRuleSolver.step: a user rule names the operation)
+                lines.append(f"{via()} {bad[0]} {bad[1]} {bad[2]}")
                 bad_kinds.add(bad[3])
                 n_bad += 1
                 return bad + ((alias_follow,) if alias_follow else ())
             if bad:
                 lines.extend(probe)
                 lines.append("mark injected " + bad[3])
-                lines.append(f"disp {bad[0]} {bad[1]} {bad[2]}")
+                lines.append(f"{via()} {bad[0]} {bad[1]} {bad[2]}")
                 lines.extend(probe)
                 bad_kinds.add(bad[3])
                 n_bad += 1
@@ -237,6 +245,8 @@ class Check(PropertyCheck):
     def oracle(self, impl, scenario, index, line, out, ctx):
         res = []
         lines = scenario.lines
+        if line.startswith("mark gcflex"):
+            return oracles.gc_flex_episode(int(line.split()[2]))["C09"]
         outs = ctx.setdefault("outs", [])
         outs.append(out)
         # the instance is part of the dispatcher: a rejected request leaves it (operations and cached views) as it was
@@ -270,7 +280,7 @@ class Check(PropertyCheck):
             return self.env_oracle(impl, scenario, index, line, out, ctx)
         # an injected request: 6 probe lines, `mark injected <kind>`, the `disp`, 6 probe lines
         if line == "q unscheduled" and index >= 14 and lines[index - 7].startswith("mark injected") and \
-                lines[index - 6].startswith("disp") and lines[index - 13:index - 7] == lines[index - 5:index + 1]:
+                lines[index - 6].startswith(("disp", "sstep")) and lines[index - 13:index - 7] == lines[index - 5:index + 1]:
             d_line, d_out = lines[index - 6], outs[index - 6]
             if d_out != "raise":
                 res.append(("not-rejected", f"invalid request `{d_line}` ({lines[index - 7][14:]}) did not raise (reply {d_out})"))
@@ -279,13 +289,13 @@ class Check(PropertyCheck):
                 if a != b:
                     res.append(("state-changed", f"rejected `{d_line}` changed `{lines[index - 13 + k]}`: before {a} after {b}"))
                     break
-        if line.startswith("disp") and index >= 1 and lines[index - 1].startswith("mark blind") and out != "raise":
+        if line.startswith(("disp", "sstep")) and index >= 1 and lines[index - 1].startswith("mark blind") and out != "raise":
             res.append(("not-rejected", f"invalid request `{line}` ({lines[index - 1][11:]}) did not raise (reply {out})"))
         # at the end: same world as the clean history
         if index == len(lines) - 1 and lines[-6:] == ["snap", "wsnap", "trace", "q current_time", "q available", "q unscheduled"]:
             from impl_ext import ImplWorld
             clean = ImplWorld(scenario.meta.get("filter_style", "callable"))
-            raised = {i for i, (l, o) in enumerate(zip(lines, outs)) if l.startswith("disp") and o == "raise"}
+            raised = {i for i, (l, o) in enumerate(zip(lines, outs)) if l.startswith(("disp", "sstep")) and o == "raise"}
             last = {}
             for i, l in enumerate(lines):
                 if i in raised or l.startswith("q "):
